@@ -42,6 +42,7 @@ def hb_events(run):
     started = []
     check_plain = True
     atomics = set()   # locations already used atomically: the tap's echo of the shim's own storage access is dropped
+    plains = set()    # plain locations seen so far (for the destruction / deallocation of a traced heap block)
     n = -1
     for l in run["trace"]:
         t = l.split()
@@ -91,8 +92,15 @@ def hb_events(run):
             ev = ("rd", a[1], None) if a[1] != "?" else ("nop", None, None)
         elif k == "cpe":        # ... complete: write of the target
             ev = ("wr", a[0], None) if a[0] != "?" else ("nop", None, None)
+        elif k in ("des", "fre") and len(a) == 1:
+            # destruction / deallocation of a traced heap block (rcu_list node / log record): a write of its plain
+            # payload field, if that field has been accessed before
+            f = a[0] + ".data" if a[0] + ".data" in plains else a[0] + ".zombie_node" if a[0] + ".zombie_node" in plains else None
+            ev = ("wr", f, None) if f else ("nop", None, None)
         else:
             ev = ("nop", None, None)
+        if ev[0] in ("rd", "wr"):
+            plains.add(ev[1])
         if ev[0] in ("ld", "st", "rmw") and ev[2] not in ORDERS:
             return evs, check_plain, "unknown memory order in '%s'" % l
         evs.append((tid, ev[0], ev[1], ev[2], n, l))
